@@ -20,11 +20,12 @@ import (
 
 // Obj is a hand-made object of the initial population.
 type Obj struct {
-	Sub  int    `json:"sub"`  // 0..255, or -1 for the cache root
-	Name string `json:"name"` // hex of the name (any byte but '/' and NUL; "fuzz/x" allowed in the root)
-	Age  int64  `json:"age"`  // mtime = Now - Age
-	Kind string `json:"kind"` // F regular file, S symlink to a regular file outside the cache, E empty directory, D non-empty directory, L dangling symlink
-	Data string `json:"data"`
+	Sub   int    `json:"sub"`  // 0..255, or -1 for the cache root
+	Name  string `json:"name"` // hex of the name (any byte but '/' and NUL; "fuzz/x" allowed in the root)
+	Age   int64  `json:"age"`  // mtime = Now - Age
+	Kind  string `json:"kind"` // F regular file, S symlink to a regular file outside the cache, E empty directory, D non-empty directory, L dangling symlink
+	Data  string `json:"data"`
+	Depth int    `json:"depth,omitempty"` // D: 0 = one file inside, 1 = files and a directory, 2 = directories three levels down (run.go fillDir)
 }
 
 func (o Obj) name() string {
@@ -91,6 +92,8 @@ type Scenario struct {
 	Events  []Event `json:"events"`
 	Missing []int   `json:"missing_subdirs"` // subdirectories removed before the history (if empty)
 	Root    string  `json:"root,omitempty"`  // root class of the cache directory (roots.go); "" = a plain scratch directory
+	TZ      string  `json:"tz,omitempty"`    // the process's local time zone during the scenario (IANA name); "" = as the runner found it
+	Epoch   int64   `json:"epoch,omitempty"` // the clock of the scenario is Epoch*1e9 + Frac instead of the real second (0 = real time)
 }
 
 func actionID(k int) cache.ActionID {
@@ -237,6 +240,11 @@ func genNow(r *common.RNG) int64 {
 
 func genScenario(r *common.RNG) *Scenario {
 	s := &Scenario{Frac: genFrac(r), Root: genRoot(r)}
+	if injectable && len(tzPool) > 0 && r.Chance(1, 6) {
+		// another local time zone, at an instant near one of its clock changes
+		z := common.Pick(r, tzPool)
+		s.TZ, s.Epoch = z.TZ, z.Epoch
+	}
 	s.Rec = genRecord(r)
 	frac := s.Frac
 	for i, n := 0, r.Intn(5); i < n; i++ {
@@ -259,6 +267,7 @@ func genScenario(r *common.RNG) *Scenario {
 			o.Kind = "E"
 		case 1:
 			o.Kind = "D"
+			o.Depth = r.Intn(3)
 		case 2:
 			o.Kind = "L"
 		case 3, 4:
@@ -347,6 +356,7 @@ func crowd(r *common.RNG, sub, n int) []Obj {
 			o.Kind = "E"
 		case 3:
 			o.Kind = "D"
+			o.Depth = r.Intn(3)
 		case 4:
 			o.Kind = "S"
 		}
@@ -379,6 +389,171 @@ func crowdScenarios() []*Scenario {
 		}
 	}
 	return out
+}
+
+// foreignDirScenarios: "never touches files that are not cache entries": directories with contents,
+// named like entries and otherwise, one to three levels deep, of every age class, next to stale and
+// recent entries; due trims and one that is not due.
+func foreignDirScenarios() []*Scenario {
+	var out []*Scenario
+	names := []string{"saved-d", "x-a", "-a", "-d", "0123456789abcdef0123456789abcdef0123456789abcdef0123456789abcdef-d", "backup", "3c", "old-a.d", ".git-a"}
+	k := 0
+	for depth := 0; depth < 3; depth++ {
+		for _, age := range []int64{10 * day, fiveDays + hour + sec, fiveDays, day, 0} {
+			var objs []Obj
+			for ni, n := range names {
+				objs = append(objs, Obj{Sub: []int{0x3c, 0, 0xff}[ni%3], Name: hx(n), Age: age, Kind: "D", Depth: depth, Data: fmt.Sprintf("kept %d", ni)})
+			}
+			objs = append(objs, Obj{Sub: 0x3c, Name: hx("stale-a"), Age: 9 * day, Kind: "F", Data: "s"}, Obj{Sub: 0xff, Name: hx("recent-d"), Age: day, Kind: "F", Data: "r"},
+				Obj{Sub: 0, Name: hx("empty-d"), Age: age, Kind: "E"})
+			rec := RecSpec{Kind: "none"}
+			if k%5 == 4 {
+				rec = relRec(-3600, "", "")
+			}
+			out = append(out, &Scenario{Frac: int64(k), Rec: rec, Objs: objs, Entries: []Entry{{ID: 1, Data: 1, AgeA: 8 * day, AgeD: 8 * day}},
+				Events: []Event{{Op: "trim"}, {Op: "trim", At: day}}})
+			k++
+		}
+	}
+	return out
+}
+
+// shortNameScenarios: foreign objects whose names are shorter than, as long as, or barely longer than
+// the entry suffix, and other degenerate names, in a subdirectory that also holds stale entries
+// sorting before and after them; stale entries in a later subdirectory too.  Trim must get through
+// all of it, remove every stale entry and record the trim.
+func shortNameScenarios() []*Scenario {
+	var out []*Scenario
+	for k, n := range []string{"a", "d", "-", "x", "0", "~", "\x7f", "\xff", "-a", "-d", "a-", "ad", "--", "\xc3\xa9", "x-a", "-ad", "a-d", "--a", "...", " -d", "\n-a", " "} {
+		for _, kind := range []string{"F", "E", "D"} {
+			sub := []int{0, 0x10, 0xfe}[k%3]
+			objs := []Obj{
+				{Sub: sub, Name: hx(n), Age: []int64{10 * day, day}[k%2], Kind: kind, Data: "odd", Depth: k % 3},
+				{Sub: sub, Name: hx("!first-a"), Age: 9 * day, Kind: "F", Data: "s1"},
+				{Sub: sub, Name: hx("zz-last-d"), Age: 9 * day, Kind: "F", Data: "s2"},
+				{Sub: sub, Name: hx("\xff\xff-a"), Age: 9 * day, Kind: "F", Data: "s3"},
+				{Sub: sub, Name: hx("recent-a"), Age: day, Kind: "F", Data: "r"},
+				{Sub: 0xff, Name: hx("later-d"), Age: 7 * day, Kind: "F", Data: "s4"},
+				{Sub: 0xff, Name: hx("later-recent-d"), Age: hour, Kind: "F", Data: "r2"},
+			}
+			out = append(out, &Scenario{Frac: int64(k), Rec: RecSpec{Kind: "none"}, Objs: objs, Events: []Event{{Op: "trim"}}})
+		}
+	}
+	return out
+}
+
+// ---------------------------------------------------------------- time zones
+
+// tzPoint is an instant near a clock change of a zone.
+type tzPoint struct {
+	TZ    string
+	Epoch int64
+	What  string
+}
+
+var tzPool []tzPoint
+
+// tzZones: zones whose clocks change (northern and southern rules, a half-hour change) and controls.
+var tzZones = []string{"America/New_York", "Europe/Berlin", "Australia/Lord_Howe", "America/Santiago", "Asia/Tokyo", "UTC"}
+
+// tzPoints finds the clock changes of every zone in two years through Time.ZoneBounds and places
+// instants at several distances after each (and, for zones without changes, on the same dates).
+func tzPoints() []tzPoint {
+	var out []tzPoint
+	for _, z := range tzZones {
+		loc, err := time.LoadLocation(z)
+		if err != nil {
+			continue
+		}
+		for _, year := range []int{2023, 2025} {
+			t := time.Date(year, 1, 1, 12, 0, 0, 0, loc)
+			endOfYear := time.Date(year+1, 1, 1, 0, 0, 0, 0, loc)
+			var changes []time.Time
+			for len(changes) < 4 {
+				_, end := t.ZoneBounds()
+				if end.IsZero() || !end.Before(endOfYear) {
+					break
+				}
+				changes = append(changes, end)
+				t = end.Add(time.Hour)
+			}
+			if len(changes) == 0 {
+				// a zone that keeps its offset: the dates on which others change theirs
+				changes = []time.Time{time.Date(year, 3, 12, 7, 0, 0, 0, time.UTC), time.Date(year, 11, 5, 6, 0, 0, 0, time.UTC)}
+			}
+			for _, ch := range changes {
+				_, o1 := ch.Add(-time.Second).In(loc).Zone()
+				_, o2 := ch.In(loc).Zone()
+				for _, d := range []time.Duration{40 * time.Minute, 26 * time.Hour, 4*24*time.Hour + 23*time.Hour, 5*24*time.Hour + 30*time.Minute, 6 * 24 * time.Hour} {
+					out = append(out, tzPoint{TZ: z, Epoch: ch.Add(d).Unix(), What: fmt.Sprintf("%s after the clocks of %s went from UTC%+ds to UTC%+ds", d, z, o1, o2)})
+				}
+			}
+		}
+	}
+	return out
+}
+
+// tzScenarios: at each such instant one due trim over entries on both sides of every threshold:
+// looked up just under five days ago with an mtime up to an hour older (must stay), unused for a
+// second / half an hour / 59 minutes / two hours more than five days and one hour (must go), and
+// a Put entry one day old; then a lookup and a second trim a day later (due again).
+func tzScenarios() []*Scenario {
+	pts := tzPoints()
+	tzPool = nil
+	for _, p := range pts {
+		if p.TZ != "UTC" && p.TZ != "Asia/Tokyo" {
+			tzPool = append(tzPool, p)
+		}
+	}
+	var out []*Scenario
+	for k, p := range pts {
+		if !injectable {
+			break
+		}
+		objs := []Obj{
+			{Sub: 7, Name: hx("plus1s-a"), Age: fiveDays + hour + sec, Kind: "F", Data: "o1"},
+			{Sub: 7, Name: hx("plus29m-d"), Age: fiveDays + hour + 29*60*sec, Kind: "F", Data: "o2"},
+			{Sub: 7, Name: hx("plus59m-a"), Age: fiveDays + hour + 59*60*sec, Kind: "F", Data: "o3"},
+			{Sub: 7, Name: hx("plus2h-d"), Age: fiveDays + 3*hour, Kind: "F", Data: "o4"},
+			{Sub: 7, Name: hx("minus1s-a"), Age: fiveDays - sec, Kind: "F", Data: "o5"},
+			{Sub: 7, Name: hx("minus59m-d"), Age: fiveDays - 59*60*sec, Kind: "F", Data: "o6"},
+			{Sub: 7, Name: hx("README"), Age: 30 * day, Kind: "F", Data: "o7"},
+		}
+		ents := []Entry{
+			{ID: 1, Data: 1, AgeA: fiveDays + 59*60*sec, AgeD: fiveDays + 59*60*sec},
+			{ID: 2, Data: 2, AgeA: fiveDays + 20*60*sec, AgeD: fiveDays + 31*60*sec},
+			{ID: 3, Data: 3, AgeA: day, AgeD: day},
+			{ID: 4, Data: 0, AgeA: fiveDays + hour + sec, AgeD: fiveDays + hour + sec},
+		}
+		evs := []Event{{Op: "getbytes", At: -(fiveDays - sec), ID: 1}, {Op: []string{"getfile", "getbytes", "get"}[k%3], At: -(fiveDays - 10*60*sec), ID: 2},
+			{Op: "trim"}, {Op: "getbytes", At: sec, ID: 1}, {Op: "trim", At: day + sec}}
+		out = append(out, &Scenario{Frac: int64(k % 3), TZ: p.TZ, Epoch: p.Epoch, Rec: []RecSpec{{Kind: "none"}, relRec(-86400, "", "")}[k%2], Objs: objs, Entries: ents, Events: evs})
+	}
+	return out
+}
+
+func describeTZ(s *Scenario) string {
+	if s.TZ == "" && s.Epoch == 0 {
+		return ""
+	}
+	var b strings.Builder
+	if s.TZ != "" {
+		fmt.Fprintf(&b, "local time zone of the process %s (TZ=%s); ", s.TZ, s.TZ)
+	}
+	if s.Epoch != 0 {
+		t := time.Unix(s.Epoch, 0).UTC()
+		if loc, err := time.LoadLocation(s.TZ); err == nil && s.TZ != "" {
+			t = t.In(loc)
+		}
+		fmt.Fprintf(&b, "clock = %s (unix %d) + %dns", t.Format("Mon 2006-01-02 15:04:05 -0700 MST"), s.Epoch, s.Frac)
+		for _, p := range tzPool {
+			if p.TZ == s.TZ && p.Epoch == s.Epoch {
+				fmt.Fprintf(&b, ", %s", p.What)
+			}
+		}
+		b.WriteString("; ")
+	}
+	return b.String()
 }
 
 // handScenarios are the hand-written histories: the defects found with this check and the
@@ -447,7 +622,12 @@ func describeScenario(s *Scenario) string {
 		}
 		b.WriteString("; ")
 	}
-	fmt.Fprintf(&b, "clock = start of the run + %dns", s.Frac)
+	b.WriteString(describeTZ(s))
+	if s.Epoch == 0 {
+		fmt.Fprintf(&b, "clock = start of the run + %dns", s.Frac)
+	} else {
+		b.WriteString("ages and offsets relative to that clock")
+	}
 	switch s.Rec.Kind {
 	case "none", "":
 		b.WriteString("; trim.txt missing")
@@ -466,6 +646,9 @@ func describeScenario(s *Scenario) string {
 	}
 	for _, o := range s.Objs {
 		fmt.Fprintf(&b, "; %s %d/%q age %s", o.Kind, o.Sub, o.name(), time.Duration(o.Age))
+		if o.Kind == "D" {
+			fmt.Fprintf(&b, " (a directory with files below it, depth %d)", o.Depth+1)
+		}
 	}
 	for _, i := range s.Missing {
 		fmt.Fprintf(&b, "; subdirectory %02x removed", i&255)
